@@ -113,6 +113,7 @@ type HarnessResult struct {
 	Samples       []map[string]interface{}
 	FpOps         int
 	ConcCombos    int
+	PrunedCombos  int // thread-path combinations rejected by the solver-free necessary conditions
 	Events        int
 	Blocked       int
 	Winners       []string
